@@ -351,16 +351,19 @@ example :
 /-- **No retained slots, node-level histories.** Start from `newBtree`'s empty root and apply any
 sequence of node-level operations, each within its documented precondition (`applyOp`); then in every
 node object that has not been unlinked every key and value slot from `n` on is zero, and the node
-either is a leaf with all child slots zero or its child slots from `n + 1` on are zero. Needs every
-zeroing / clearing / shifting statement of `btree.go` to be present (`ZeroingPresent`, the
+either is a leaf with all child slots zero or its child slots from `n + 1` on are zero (`TailOK`) — and, the
+invariant that is actually carried (audit C03S-F3: `TailOK` alone says nothing about the live prefixes and would
+admit a "leaf" with `n = 3` whose child slots 1..3 still hold pointers): the node *represents* some entries and
+children (`NodeRep`): its `n` key, `n` value and `0` or `n + 1` child slots in front are non-zero, all others zero.
+Needs every zeroing / clearing / shifting statement of `btree.go` to be present (`ZeroingPresent`, the
 conjunction of the generated presence facts). -/
 theorem no_retained_slots (ops : List (NodeOp K V C)) {fam : Fam K V C}
     (hrun : runOps [some SNode.fresh] ops = some fam) :
-    ∀ x, some x ∈ fam → TailOK x := by
+    ∀ x, some x ∈ fam → (∃ kvs kids, NodeRep x kvs kids) ∧ TailOK x := by
   have hf : ZeroingPresent := by decide
   have h0 : AllClean ([some SNode.fresh] : Fam K V C) := by
     intro x hx; simp at hx; subst hx; exact clean_fresh
-  exact fun x hx => (runOps_clean hf ops h0 hrun x hx).tailOK
+  exact fun x hx => ⟨runOps_clean hf ops h0 hrun x hx, (runOps_clean hf ops h0 hrun x hx).tailOK⟩
 
 /-- a history through a leaf split, a new root, steals in both directions and a merge is enabled -/
 example :
@@ -375,15 +378,31 @@ example :
 (`Heap.put` / `Heap.delete`: the transliteration of `btree.Put` / `btree.Delete` with parent pointers
 that the correspondence harness compares with the real `tree.Map` raw slot by raw slot, and that
 changes its store only through enabled node-level operations), every node object of the store that
-has not been unlinked — in particular every node reachable from the root — has only zero slots
-behind its live prefixes. (`none` = the model hit a nil dereference / index out of range or left the
+has not been unlinked — in particular every node reachable from the root — represents some entries and children
+(`NodeRep`: non-zero live prefixes of the right lengths) and has only zero slots behind its live prefixes. (`none` = the model hit a nil dereference / index out of range or left the
 documented precondition of a helper; the harness checks that model and code agree on the outcome.) -/
 theorem no_retained_slots_tree (cmp : K → K → Int) (ms : List (Heap.Mut K V)) {h : Heap K V}
     (hrun : Heap.runMuts cmp Heap.empty ms = some h) :
-    ∀ id x, h.get id = some x → TailOK x := by
+    ∀ id x, h.get id = some x → (∃ kvs kids, NodeRep x kvs kids) ∧ TailOK x := by
   have hf : ZeroingPresent := by decide
   intro id x hx
-  exact ((runMuts_clean hf cmp ms clean_empty hrun).get hx).tailOK
+  exact ⟨(runMuts_clean hf cmp ms clean_empty hrun).get hx, ((runMuts_clean hf cmp ms clean_empty hrun).get hx).tailOK⟩
+
+/-- what `NodeRep` adds to `TailOK` (audit C03S-F3): a "leaf" (`children[0] == nil`) with three entries whose child
+slots 1..3 still hold pointers has cleared tails in the sense of `TailOK`, but represents no node — so it is excluded
+by the conclusions of `no_retained_slots` / `no_retained_slots_tree`, not merely by the invariant inside their proofs. -/
+example : let bad : SNode Nat Nat Nat :=
+      { n := 3, keys := [some 1, some 2, some 3] ++ List.replicate 12 none,
+        vals := [some 1, some 2, some 3] ++ List.replicate 12 none,
+        kids := [none, some 7, some 8, some 9] ++ List.replicate 12 none, parent := none }
+    bad.isLeaf = true ∧ ¬ ∃ kvs kids, NodeRep bad kvs kids := by
+  refine ⟨by decide, ?_⟩
+  rintro ⟨kvs, kids, h⟩
+  have hl : kvs.length = 3 := by have := h.hn; simp at this; omega
+  have hk : kids = [] := (h.isLeaf_iff).mp (by decide)
+  subst hk
+  have := h.hkids.get_tail (i := 1) (by simp) (by decide)
+  simp at this
 
 /-- 16 `Put`s (leaf split, new root), then two `Delete`s: a steal from the left sibling and a merge
 with root collapse; one live node with 14 entries remains -/
